@@ -85,11 +85,13 @@ package ice
 // disables the transition) is taken as is and counts as explicit, otherwise the default
 // applies; only a lite agent without an explicit value gets the lite default.
 //@ func (*AgentConfig).initWithDefaults
-//@   props C04
+//@   props C04 C17
 //@   opt nosafety
 //@   site store disconnectedTimeout#1 assert default-only-when-unset: config.DisconnectedTimeout == nil && value == defaultDisconnectedTimeout
 //@   site store disconnectedTimeout#2 assert a-configured-timeout-is-taken-as-is: config.DisconnectedTimeout != nil && value == *config.DisconnectedTimeout
 //@   site store disconnectedTimeoutExplicit#1 assert explicit-iff-configured-zero-included: value == (config.DisconnectedTimeout != nil)
+//@   site store tcpPriorityOffset#1 assert C17 default-offset-only-when-unset: config.TCPPriorityOffset == nil && value == defaultTCPPriorityOffset
+//@   site store tcpPriorityOffset#2 assert C17 a-configured-offset-zero-included-is-taken-as-is: config.TCPPriorityOffset != nil && value == *config.TCPPriorityOffset
 //@   site store failedTimeout#1 assert default-only-when-unset-2: config.FailedTimeout == nil && value == defaultFailedTimeout
 //@   site store failedTimeout#2 assert a-configured-failed-timeout-is-taken-as-is: config.FailedTimeout != nil && value == *config.FailedTimeout
 
@@ -108,3 +110,5 @@ package ice
 //@   site call seen#1 assert refreshes-the-inbound-timestamp: arg0 == false
 //@   site call seen#1 ghost refreshed := true
 //@   ensures a-cache-hit-refreshes-the-remotes-liveness: result ==> refreshed
+
+//@ enumerate C17 stores ice.Agent.tcpPriorityOffset in (*AgentConfig).initWithDefaults, WithTCPPriorityOffset
